@@ -411,6 +411,9 @@ class Interp:
                 continue
             if isinstance(v, VRef):
                 locs.append(v.loc)
+        if "havoc_refs" in spec:
+            for ref in spec["havoc_refs"](ctx):
+                locs.append(ref.loc)
         seen = set()
         while locs:
             loc = locs.pop()
@@ -1074,6 +1077,8 @@ class Interp:
             return v.ty.truth(v.t)
         if isinstance(v, (VFunc, VClass, VObj, VExc)):
             return z3.BoolVal(True)
+        if isinstance(v, VPy) and v.py == "":
+            return z3.BoolVal(False)          # the empty string literal
         if hasattr(v, "truth"):
             return v.truth(self)
         raise Unsupported("truth value of %r" % (v,))
